@@ -162,7 +162,7 @@ class Stats:
         for k, v in j["known"].items():
             self.known[k] = self.known.get(k, 0) + v
         for d in j["sample_list"]:
-            if len(self.sample_list) < 12:
+            if len(self.sample_list) < 12 and d not in self.sample_list:
                 self.sample_list.append(d)
         self.violations.extend(j["violations"])
         self.errors.extend(j["errors"])
@@ -219,7 +219,8 @@ def execute_case(mod, desc, known, stats: Stats | None):
             stats.hist[ev] = stats.hist.get(ev, 0) + 1
             if ev not in stats.samples and len(stats.samples) < 10 and not ctx.refusal:
                 stats.samples[ev] = desc
-                stats.sample_list.append(desc)
+                if desc not in stats.sample_list:
+                    stats.sample_list.append(desc)
         if ctx.refusal:
             stats.refusals[ctx.refusal] = stats.refusals.get(ctx.refusal, 0) + 1
         elif ctx.is_nontrivial:
